@@ -384,3 +384,66 @@ def generate(api):
         api.ok('leaves', 'layer_paint', props=['C14'], rel=RREL)
     except (U, OSError, ValueError, IndexError) as ex:
         api.broken('leaf', 'layer_paint', ['C14'], ex)
+
+
+# ------------------------------------------------------------------------------------------------------------------
+# Round 5: every way a node can be skipped on its way from render_nodes to the rasteriser.  For each dispatch function the
+# plug-in records every `if` condition, the number of `return` / `continue` / `?` exits and (render_node) the body of each
+# match arm, into Gen/RenderExits.v; Model/RenderExits.v holds the registered table and C13_render_exits_registered states
+# their equality: a NEW early return / cull / conditional call in any arm is a failed obligation.
+EXIT_FUNCS = [('crates/resvg/src/render.rs', 'render_nodes'), ('crates/resvg/src/render.rs', 'render_node'),
+              ('crates/resvg/src/path.rs', 'render'), ('crates/resvg/src/path.rs', 'fill_path'), ('crates/resvg/src/path.rs', 'stroke_path'),
+              ('crates/resvg/src/image.rs', 'render'), ('crates/resvg/src/image.rs', 'render_inner'), ('crates/resvg/src/image.rs', 'render_vector'),
+              ('crates/resvg/src/image.rs', 'render_raster')]
+
+
+def fn_body(src, name):
+    m = re.search(r"\bfn\s+%s\s*\(" % name, src)
+    if not m:
+        return None
+    i = m.end() - 1
+    i = balanced(src, i, '(', ')')
+    b0 = src.index('{', i)
+    return src[b0:balanced(src, b0, '{', '}')]
+
+
+def coq_str(x):
+    return '"%s"' % x.replace('"', '""')
+
+
+def gen_exits(api):
+    U = api.Unsupported
+    rows = []
+    try:
+        for rel, name in EXIT_FUNCS:
+            body = fn_body(strip_comments(api.rd(rel)), name)
+            if body is None:
+                raise U("fn %s not found in %s" % (name, rel))
+            norm = " ".join(body.split())
+            conds = [" ".join(c.split()) for c in re.findall(r"\bif\s+(.*?)\s*\{", norm)]
+            conds += ["match " + " ".join(c.split()) for c in re.findall(r"\bmatch\s+(.*?)\s*\{", norm)]
+            nexit = len(re.findall(r"\breturn\b|\bcontinue\b|\bbreak\b", norm)) + norm.count('?')
+            if name == 'render_node':
+                # the arms themselves: each must stay a plain call
+                for a in re.finditer(r"usvg::Node::(\w+)\(ref \w+\)\s*=>\s*\{", norm):
+                    e = balanced(norm, a.end() - 1, '{', '}')
+                    conds.append("arm %s: %s" % (a.group(1), norm[a.end():e - 1].strip()))
+            if name == 'render_nodes':
+                conds.append("body: " + norm)
+            rows.append((rel.split('/')[-1] + "::" + name, conds, nexit))
+        out = [api.HEADER, "From Coq Require Import String List.\nImport ListNotations.\nLocal Open Scope string_scope.\n",
+               "(* per dispatch function: every `if` / `match` head (and, for render_node, every arm), number of return / continue / break / ? exits *)",
+               "Definition render_exits : list (string * list string * nat) := [\n%s\n]." % ";\n".join(
+                   "  (%s, [%s], %d%%nat)" % (coq_str(n), "; ".join(coq_str(c) for c in cs), k) for n, cs, k in rows)]
+        api.write_gen('RenderExits.v', "\n".join(out) + "\n")
+        api.ok('leaves', 'render_exits', props=PROPS, rel='crates/resvg/src/{render,path,image}.rs')
+    except (U, OSError, ValueError, IndexError) as ex:
+        api.broken('leaf', 'render_exits', PROPS, ex)
+
+
+_generate_round4 = generate
+
+
+def generate(api):
+    _generate_round4(api)
+    gen_exits(api)
